@@ -4,7 +4,7 @@
     sequences of a net at the level of marking tuples) in proof/C20_Bfs.v. *)
 From Coq Require Import ZArith NArith List Lia Permutation.
 Import ListNotations.
-From SK Require Import model.C20_Model proof.C20_Spec proof.C20_Siphon proof.C20_Petri proof.C20_Bfs proof.C20_Build proof.C20_Main proof.C20_Hist proof.C20_Analyzer proof.C20_Undirected proof.C20_Order proof.C20_Complete model.C20_Persist proof.C20_PersistProof.
+From SK Require Import model.C20_Model proof.C20_Spec proof.C20_Siphon proof.C20_Petri proof.C20_Bfs proof.C20_Build proof.C20_Main proof.C20_Hist proof.C20_Analyzer proof.C20_Undirected proof.C20_Order proof.C20_Complete model.C20_Persist proof.C20_PersistProof model.C20_Inputs proof.C20_InputsProof.
 Local Open Scope nat_scope.
 
 (** The index predicate [_is_siphon_indices] is the Petri-net definition: for every network over the
@@ -291,3 +291,22 @@ Theorem C20_analyzer_persistence_read :
   Some (let s := anp_exec k st ops1 in PRead (an_siphons (anp_base s)) (an_traps (anp_base s)) (anp_persist s)).
 Proof. exact anp_read. Qed.
 Print Assumptions C20_analyzer_persistence_read.
+
+(** The flow maps on the way into PathwayRealizability (model coq/model/C20_Inputs.v; evaluated by every flow case: the caller's map is
+    handed to the model, the defaults are applied there).  Through hypergraph_to_pr_inputs an edge keeps the flow it was GIVEN — also an
+    explicit 0 or a negative number — and gets 1 only when the mapping is None or has no entry for it; loaded directly an edge without
+    an entry gets 0; entries for unknown edge ids never matter. *)
+Theorem C20_flow_defaults :
+  forall (nedges : nat) (given : option (list (N * Z))) (flow : list (N * Z)) (k : nat), k < nedges ->
+  nth k (flow_via_hg nedges given) 0%Z =
+    match given with
+    | None => 1%Z
+    | Some g => match assocZ (N.of_nat k) g with Some f => f | None => 1%Z end
+    end /\
+  nth k (flow_direct nedges flow) 0%Z = match assocZ (N.of_nat k) flow with Some f => f | None => 0%Z end /\
+  length (flow_via_hg nedges given) = nedges /\ length (flow_direct nedges flow) = nedges.
+Proof.
+  intros nedges given flow k Hk. split; [exact (flow_via_hg_spec nedges given k Hk)|].
+  split; [exact (flow_direct_spec nedges flow k Hk)|exact (flow_lengths nedges given flow)].
+Qed.
+Print Assumptions C20_flow_defaults.
